@@ -3,6 +3,7 @@ package harness
 import (
 	"context"
 	"errors"
+	"github.com/mohae/deepcopy"
 	"maps"
 	"net/url"
 	"sync"
@@ -52,10 +53,49 @@ type RecStore struct {
 	Log  []StoreEv
 	Hook func(ctx context.Context, ev *StoreEv) error // nil = no gate, no faults
 	Keep bool                                         // keep the log (off in bulk runs that do not need it)
+	Copy bool                                         // copying store: requests are copied on the way in and on the way out
 
 	// creation order of rows per kind ("code","at","rt","dev","par"): the abstract id of a
 	// credential is its position in this list, which is how the specification numbers them
 	Order map[string][]string
+}
+
+// cpReq / cpOut implement the "copying store" configuration: what is handed to the store is copied on the way in and what
+// the store hands out is copied on the way out, as any store that serialises requests does. Handlers must not rely on
+// sharing objects with the store.
+func cpAny[T any](on bool, r T) T {
+	if !on {
+		return r
+	}
+	if any(r) == nil {
+		return r
+	}
+	return deepcopy.Copy(r).(T)
+}
+
+// rehydrate gives a request that left the copying store the CURRENT registration of its client, as a store that
+// keeps the client id and loads the client on read does (a deep copy alone would freeze the registration).
+func (s *RecStore) rehydrate(r interface{}) {
+	if !s.Copy || r == nil {
+		return
+	}
+	var req *fosite.Request
+	switch x := r.(type) {
+	case *fosite.Request:
+		req = x
+	case *fosite.AccessRequest:
+		req = &x.Request
+	case *fosite.AuthorizeRequest:
+		req = &x.Request
+	case *fosite.DeviceRequest:
+		req = &x.Request
+	}
+	if req == nil || req.Client == nil {
+		return
+	}
+	if cur, ok := s.MemoryStore.Clients[req.Client.GetID()]; ok {
+		req.Client = cur
+	}
 }
 
 func NewRecStore(m *storage.MemoryStore) *RecStore {
@@ -149,13 +189,16 @@ func (s *RecStore) CreateOpenIDConnectSession(ctx context.Context, code string, 
 	if _, err := s.pre(ctx, "CreateOpenIDConnectSession", r, code); err != nil {
 		return err
 	}
-	return s.MemoryStore.CreateOpenIDConnectSession(ctx, code, r)
+	return s.MemoryStore.CreateOpenIDConnectSession(ctx, code, cpAny(s.Copy, r))
 }
 func (s *RecStore) GetOpenIDConnectSession(ctx context.Context, code string, r fosite.Requester) (fosite.Requester, error) {
 	if _, err := s.pre(ctx, "GetOpenIDConnectSession", nil, code); err != nil {
 		return nil, err
 	}
-	return s.MemoryStore.GetOpenIDConnectSession(ctx, code, r)
+	out, err := s.MemoryStore.GetOpenIDConnectSession(ctx, code, r)
+	out = cpAny(s.Copy, out)
+	s.rehydrate(out)
+	return out, err
 }
 func (s *RecStore) DeleteOpenIDConnectSession(ctx context.Context, code string) error {
 	if _, err := s.pre(ctx, "DeleteOpenIDConnectSession", nil, code); err != nil {
@@ -167,7 +210,7 @@ func (s *RecStore) CreateAuthorizeCodeSession(ctx context.Context, code string, 
 	if _, err := s.pre(ctx, "CreateAuthorizeCodeSession", r, code); err != nil {
 		return err
 	}
-	if err := s.MemoryStore.CreateAuthorizeCodeSession(ctx, code, r); err != nil {
+	if err := s.MemoryStore.CreateAuthorizeCodeSession(ctx, code, cpAny(s.Copy, r)); err != nil {
 		return err
 	}
 	s.created("code", code)
@@ -177,7 +220,10 @@ func (s *RecStore) GetAuthorizeCodeSession(ctx context.Context, code string, ses
 	if _, err := s.pre(ctx, "GetAuthorizeCodeSession", nil, code); err != nil {
 		return nil, err
 	}
-	return s.MemoryStore.GetAuthorizeCodeSession(ctx, code, sess)
+	out, err := s.MemoryStore.GetAuthorizeCodeSession(ctx, code, sess)
+	out = cpAny(s.Copy, out)
+	s.rehydrate(out)
+	return out, err
 }
 func (s *RecStore) InvalidateAuthorizeCodeSession(ctx context.Context, code string) error {
 	if _, err := s.pre(ctx, "InvalidateAuthorizeCodeSession", nil, code); err != nil {
@@ -189,13 +235,16 @@ func (s *RecStore) CreatePKCERequestSession(ctx context.Context, code string, r 
 	if _, err := s.pre(ctx, "CreatePKCERequestSession", r, code); err != nil {
 		return err
 	}
-	return s.MemoryStore.CreatePKCERequestSession(ctx, code, r)
+	return s.MemoryStore.CreatePKCERequestSession(ctx, code, cpAny(s.Copy, r))
 }
 func (s *RecStore) GetPKCERequestSession(ctx context.Context, code string, sess fosite.Session) (fosite.Requester, error) {
 	if _, err := s.pre(ctx, "GetPKCERequestSession", nil, code); err != nil {
 		return nil, err
 	}
-	return s.MemoryStore.GetPKCERequestSession(ctx, code, sess)
+	out, err := s.MemoryStore.GetPKCERequestSession(ctx, code, sess)
+	out = cpAny(s.Copy, out)
+	s.rehydrate(out)
+	return out, err
 }
 func (s *RecStore) DeletePKCERequestSession(ctx context.Context, code string) error {
 	if _, err := s.pre(ctx, "DeletePKCERequestSession", nil, code); err != nil {
@@ -207,7 +256,7 @@ func (s *RecStore) CreateAccessTokenSession(ctx context.Context, sig string, r f
 	if _, err := s.pre(ctx, "CreateAccessTokenSession", r, sig); err != nil {
 		return err
 	}
-	if err := s.MemoryStore.CreateAccessTokenSession(ctx, sig, r); err != nil {
+	if err := s.MemoryStore.CreateAccessTokenSession(ctx, sig, cpAny(s.Copy, r)); err != nil {
 		return err
 	}
 	s.created("at", sig)
@@ -217,7 +266,10 @@ func (s *RecStore) GetAccessTokenSession(ctx context.Context, sig string, sess f
 	if _, err := s.pre(ctx, "GetAccessTokenSession", nil, sig); err != nil {
 		return nil, err
 	}
-	return s.MemoryStore.GetAccessTokenSession(ctx, sig, sess)
+	out, err := s.MemoryStore.GetAccessTokenSession(ctx, sig, sess)
+	out = cpAny(s.Copy, out)
+	s.rehydrate(out)
+	return out, err
 }
 func (s *RecStore) DeleteAccessTokenSession(ctx context.Context, sig string) error {
 	if _, err := s.pre(ctx, "DeleteAccessTokenSession", nil, sig); err != nil {
@@ -229,7 +281,7 @@ func (s *RecStore) CreateRefreshTokenSession(ctx context.Context, sig, atSig str
 	if _, err := s.pre(ctx, "CreateRefreshTokenSession", r, sig, atSig); err != nil {
 		return err
 	}
-	if err := s.MemoryStore.CreateRefreshTokenSession(ctx, sig, atSig, r); err != nil {
+	if err := s.MemoryStore.CreateRefreshTokenSession(ctx, sig, atSig, cpAny(s.Copy, r)); err != nil {
 		return err
 	}
 	s.created("rt", sig)
@@ -246,7 +298,10 @@ func (s *RecStore) GetRefreshTokenSession(ctx context.Context, sig string, sess 
 		}
 		return nil, err
 	}
-	return s.MemoryStore.GetRefreshTokenSession(ctx, sig, sess)
+	out, err := s.MemoryStore.GetRefreshTokenSession(ctx, sig, sess)
+	out = cpAny(s.Copy, out)
+	s.rehydrate(out)
+	return out, err
 }
 func (s *RecStore) DeleteRefreshTokenSession(ctx context.Context, sig string) error {
 	if _, err := s.pre(ctx, "DeleteRefreshTokenSession", nil, sig); err != nil {
@@ -312,7 +367,7 @@ func (s *RecStore) CreatePARSession(ctx context.Context, uri string, r fosite.Au
 	if _, err := s.pre(ctx, "CreatePARSession", r, uri); err != nil {
 		return err
 	}
-	if err := s.MemoryStore.CreatePARSession(ctx, uri, r); err != nil {
+	if err := s.MemoryStore.CreatePARSession(ctx, uri, cpAny(s.Copy, r)); err != nil {
 		return err
 	}
 	s.created("par", uri)
@@ -322,7 +377,10 @@ func (s *RecStore) GetPARSession(ctx context.Context, uri string) (fosite.Author
 	if _, err := s.pre(ctx, "GetPARSession", nil, uri); err != nil {
 		return nil, err
 	}
-	return s.MemoryStore.GetPARSession(ctx, uri)
+	out, err := s.MemoryStore.GetPARSession(ctx, uri)
+	out = cpAny(s.Copy, out)
+	s.rehydrate(out)
+	return out, err
 }
 func (s *RecStore) DeletePARSession(ctx context.Context, uri string) error {
 	if _, err := s.pre(ctx, "DeletePARSession", nil, uri); err != nil {
@@ -334,7 +392,7 @@ func (s *RecStore) CreateDeviceAuthSession(ctx context.Context, dsig, usig strin
 	if _, err := s.pre(ctx, "CreateDeviceAuthSession", r, dsig, usig); err != nil {
 		return err
 	}
-	if err := s.MemoryStore.CreateDeviceAuthSession(ctx, dsig, usig, r); err != nil {
+	if err := s.MemoryStore.CreateDeviceAuthSession(ctx, dsig, usig, cpAny(s.Copy, r)); err != nil {
 		return err
 	}
 	s.created("dev", dsig)
@@ -344,7 +402,10 @@ func (s *RecStore) GetDeviceCodeSession(ctx context.Context, sig string, sess fo
 	if _, err := s.pre(ctx, "GetDeviceCodeSession", nil, sig); err != nil {
 		return nil, err
 	}
-	return s.MemoryStore.GetDeviceCodeSession(ctx, sig, sess)
+	out, err := s.MemoryStore.GetDeviceCodeSession(ctx, sig, sess)
+	out = cpAny(s.Copy, out)
+	s.rehydrate(out)
+	return out, err
 }
 func (s *RecStore) InvalidateDeviceCodeSession(ctx context.Context, sig string) error {
 	if _, err := s.pre(ctx, "InvalidateDeviceCodeSession", nil, sig); err != nil {
